@@ -209,6 +209,8 @@ def run_case(case) -> Outcome:
         if not out.check((a.grad is None) == (b.grad is None), "grad-noneness-depends-on-chunk-size", f"leaf {i}"):
             continue
         if a.grad is not None:
+            if not out.check(tuple(a.grad.shape) == tuple(b.grad.shape), "grad-shape-depends-on-chunk-size", f"leaf {i}"):
+                continue
             scale = max(1.0, float(b.grad.abs().max())) if b.grad.numel() else 1.0
             err = float((a.grad.double() - b.grad.double()).abs().max()) if a.grad.numel() else 0.0
             out.within(err, rel * scale * 10, "update-depends-on-chunk-size",
